@@ -49,8 +49,8 @@ def build_roots(prog):
                 roots.append((fi, "ctor"))
             elif name in ("_set_strides",):
                 roots.append((fi, "ctor"))
-            elif name in ("_compute_common_cells_from_marginal_diffs", "_walk"):
-                pass  # protocol helpers: `region` / callbacks are owned by calculate; analysed through it
+            elif name in ("_compute_common_cells_from_marginal_diffs", "_walk") or (name.startswith("_") and not name.startswith("__")):
+                pass  # protocol / private helpers: the `region` / callbacks they are handed are owned by calculate; analysed through it (inlined where they are called)
             else:
                 roots.append((fi, "cube"))
     for mod in ("ffuncs", "xfuncs"):
